@@ -245,7 +245,7 @@ def main(tier, replay=None):
     run.extra['tlc_behaviours_exported'] = len(seen)
     run.extra['tlc_behaviours_relevant'] = len(cases)
     rng = random.Random(run.seed)
-    limit = 12000 if quick else 400000
+    limit = 12000 if quick else 120000
     if len(cases) > limit:
         cases = rng.sample(cases, limit)
         run.exhaustive = False
@@ -255,7 +255,7 @@ def main(tier, replay=None):
     for i, c in enumerate(cases):
         if i % 3 == 2:      # callbacks that are bound methods of host objects (equal, not identical, from access to access)
             c['cbkind'] = 'method'
-    CH = 50000
+    CH = 20000
     for i in range(0, len(cases), CH):
         validate(run, cases[i:i + CH], 's2c%d' % (i // CH))
     # 4. C2S: random longer behaviours, on Emitter and on Parser (which is an Emitter)
